@@ -44,6 +44,8 @@ ASSUMPTIONS = [
     "atomicity of single set/dict/list operations under the GIL and of threading.Lock",
     "OS preemption inside C code, timeouts, sleep and GC-driven __del__ / dead WeakMethod are not modelled",
     "one thread per endpoint; a socket key is operated by its owner thread only",
+    "message payloads are abstract identities in the model; the harness maps id 0 to the empty string (falsy payload), "
+    "other ids to 'm<id>' / StructuredMessage(payload=id)",
     "callback theorems: the callback key is never connected without callbacks and never disconnected (CbOnlyProg)",
     "is_connected (two reads of _open_sockets in one source line) is one atomic step",
 ]
@@ -91,6 +93,17 @@ def run(ctx):
     # ---- corpus: the F20 schedule shapes (forced), in this process
     corpus = []
     progs = H.f20_case()
+    # an EMPTY-STRING message between two others, plain delivery, blocking and non-blocking receives
+    empty_progs = [[("c", 1, 0, 0), ("s", 1, 0, 1), ("s", 1, 0, 0), ("s", 1, 0, 2)],
+                   [("c", 0, 0, 0), ("r", 0, 0, 1), ("r", 0, 0, 0), ("r", 0, 0, 1), ("r", 0, 0, 0)]]
+    for pol in (H.preemptive_policy({}, []), H.preemptive_policy({3: 1, 9: 0}, []), H.forced([0, 1] * 80),
+                H.forced([1, 1, 1, 0, 0, 0] * 30)):
+        sched = "policy"
+        try:
+            corpus.append(H.run_case(empty_progs, pol))
+        except H.Stuck as e:
+            res.failures.append({"what": "harness could not drive the real hub: %s" % e, "kf": None,
+                                 "input": {"progs": empty_progs, "schedule": sched}})
     for sched in ([1, 1] + [0] * 7 + [1, 1] + [0] * 3 + [1] * 3,          # the recorded F20 schedule (unfixed order)
                   [1, 1, 1, 1] + [0] * 9 + [1] * 3,                          # callbacks, publish, then A runs
                   [1, 1, 1] + [0] * 3 + [1] + [0] * 6 + [1] * 3,            # B publishes only open, A connects+sends
